@@ -411,6 +411,8 @@ def _judge_viss(d, o, P, paths, meta, subs, core_lines, core_out):
                 if row[3] != H.KUKSA_DT[m["dtype"]]:
                     fails.append("C15-meta: VISS metadata reports data type %d for %s (%s)" % (
                         row[3], m["path"], E.DATA_TYPES[m["dtype"]]))
+                if row[-1] != 1:
+                    fails.append("C15-meta: VISS metadata reports a description of %s that is not the registered one" % m["path"])
                 got = None
                 if len(row) > 4 and row[4] == 1:
                     got, _ = E.dec_val(row, 5)
